@@ -882,12 +882,12 @@ impl<'a> Env<'a> {
     fn resolve(&self, qname: &str, use_default: bool) -> Result<(String, Option<String>), EvalErr> {
         let (p, l) = split_name(qname);
         match p {
-            Some(p) => match self.ns.iter().find(|b| b.0.as_deref() == Some(p)) {
+            Some(p) => match self.ns.iter().rev().find(|b| b.0.as_deref() == Some(p)) {
                 Some(b) => Ok((l.to_string(), Some(b.1.clone()))),
                 None => Err(EvalErr(format!("unbound-prefix:{}", p))),
             },
             None => {
-                let d = if use_default { self.ns.iter().find(|b| b.0.is_none()).map(|b| b.1.clone()) } else { None };
+                let d = if use_default { self.ns.iter().rev().find(|b| b.0.is_none()).map(|b| b.1.clone()) } else { None };
                 Ok((l.to_string(), d))
             }
         }
@@ -908,7 +908,7 @@ impl<'a> Env<'a> {
             NodeTest::PI(Some(tg)) => node.kind == XKind::PI && node.local == *tg,
             NodeTest::Any => node.kind == principal,
             NodeTest::NsAny(p) => {
-                let uri = match self.ns.iter().find(|b| b.0.as_deref() == Some(p.as_str())) {
+                let uri = match self.ns.iter().rev().find(|b| b.0.as_deref() == Some(p.as_str())) {
                     Some(b) => b.1.clone(),
                     None => return Err(EvalErr(format!("unbound-prefix:{}", p))),
                 };
